@@ -1,6 +1,6 @@
 # replay of a solver counterexample against the real library (exit 1 = reproduces)
 import sys, warnings
-sys.path.insert(0, '/tmp/sr/C18-m4')
+sys.path.insert(0, '/tmp/sr/C18-m3')
 warnings.simplefilter('ignore')
 import numpy as np
 from svgpathtools import *
@@ -16,8 +16,8 @@ def NOT_REPRODUCED(msg=''):
 import tempfile, os
 from svgpathtools import wsvg, svg2paths2, Document
 from svgpathtools.svg_io_sax import SaxDocument
-paths = [Path(CubicBezier((-9-9j), (-9-9j), (-9+0j), 1j), Line((-9-9j), (-9+1j)))]
-attrs = [{'stroke': 'red', 'fill': 'none', 'xml:space': 'preserve'}]; svg_attrs = {'width': '300px', 'height': '200px', 'viewBox': '0 0 30 20'}; writer = 'Document'; reader = 'SaxDocument'
+paths = [Path(Line((-9-8j), (-9-9j))), Path(QuadraticBezier((-9+0j), 0j, (-9-9j)))]
+attrs = [{'stroke': 'red', 'fill': 'none', 'xml:space': 'preserve'}, {'stroke-width': '2.5', 'id': 'second one', 'stroke': '#00ff00'}]; svg_attrs = {'id': 'drawing', 'fill': 'black', 'stroke': 'grey', 'stroke-width': '1', 'width': '300px', 'height': '200px', 'viewBox': '0 0 30 20'}; writer = 'wsvg'; reader = 'SaxDocument'
 fd, fn = tempfile.mkstemp(suffix='.svg'); os.close(fd)
 try:
     if writer == 'wsvg':
